@@ -286,8 +286,10 @@ Proof.
     clear. v3_unfold. cbn [cs_of cs_o cs_i cs_j fst snd nsin ncos NumR]. f_equal; v3_split; ring.
 Qed.
 
+(* (model repair: the hypothesis on the flags used to read `length dead = length (p_locs p)`;
+   the empty vector, which numpy accepts as boolean index of any vector, is now covered) *)
 Lemma move_probe_obj_R fit (p : probeR) dead tx rx ds :
-  frame_ok (p_pcs p) -> length dead = length (p_locs p) -> length tx = length rx ->
+  frame_ok (p_pcs p) -> length dead = length (p_locs p) \/ dead = [] -> length tx = length rx ->
   move_probe_obj NumR fit p dead tx rx ds =
   match move_probe NumR fit (cs_of (p_pcs p)) tx rx dead (p_locs p) ds with
   | inl e => MvRaised e
@@ -305,7 +307,7 @@ Qed.
 (* find_probe_loc_from_frontwall on the objects = find_probe_loc of Model/Registration.v applied to
    the PCS coordinates, for a probe in ANY pose *)
 Lemma frontwall_obj_R {A} (mag : A -> R) fit (p : probeR) dead start step num (rows : list (list A)) tx rx c tmin tmax :
-  (forall a, 0 <= mag a) -> frame_ok (p_pcs p) -> length dead = length (p_locs p) -> length tx = length rx ->
+  (forall a, 0 <= mag a) -> frame_ok (p_pcs p) -> length dead = length (p_locs p) \/ dead = [] -> length tx = length rx ->
   frontwall_obj NumR mag fit p dead start step num rows tx rx c tmin tmax =
   match find_probe_loc NumR fit start step num (map (map mag) rows) tx rx dead (locations_pcs NumR p) c tmin tmax with
   | inl e => FwRaised (reset_probe p) e
@@ -414,7 +416,7 @@ Qed.
 (* ---- registration recovers the pose, on the objects, from any initial pose ------------------------ *)
 Lemma frontwall_obj_recovers {A} (mag : A -> R) fit (p : probeR) xs th z0 dead tx rx start step num (rows : list (list A)) (c : R) tmin tmax times :
   is_ls_minimiser fit -> (forall a, 0 <= mag a) ->
-  frame_ok (p_pcs p) -> locations_pcs NumR p = on_axis xs -> length dead = length xs ->
+  frame_ok (p_pcs p) -> locations_pcs NumR p = on_axis xs -> length dead = length xs \/ dead = [] ->
   - (PI / 2) <= th <= PI / 2 ->
   detect_surface NumR (time_samples NumR start step num) (map (map mag) rows) tmin tmax = Some times ->
   length tx = length rx -> length times = length tx ->
@@ -430,8 +432,9 @@ Lemma frontwall_obj_recovers {A} (mag : A -> R) fit (p : probeR) xs th z0 dead t
          z0 th times.
 Proof.
   intros Hfit Hmag Hf Hloc Hd Hth Hdet L1 L2 Hn Hsel Hspread.
-  assert (length dead = length (p_locs p)) as Hd'.
-  { rewrite Hd, <- (on_axis_length xs), <- Hloc. unfold locations_pcs. rewrite map_length. reflexivity. }
+  assert (length dead = length (p_locs p) \/ dead = []) as Hd'.
+  { destruct Hd as [Hd | Hd]; [left | right; exact Hd].
+    rewrite Hd, <- (on_axis_length xs), <- Hloc. unfold locations_pcs. rewrite map_length. reflexivity. }
   rewrite (frontwall_obj_R mag fit p dead start step num rows tx rx c tmin tmax Hmag Hf Hd' L1), Hloc.
   rewrite (find_probe_loc_recovers fit xs th z0 dead tx rx start step num _ c tmin tmax times
              Hfit Hth Hdet L1 L2 Hn Hsel Hspread).
